@@ -26,6 +26,7 @@ type kvs interface {
 	Delete(key []byte) error
 	NewBatch() ethdb.Batch
 	NewIterator(prefix []byte, start []byte) ethdb.Iterator
+	Logger() *log.Logger
 }
 
 const tablePrefix = "t-"
@@ -38,13 +39,15 @@ type subject struct {
 	name    string
 	backend string // leveldb, pebble, memorydb
 	table   bool
-	db      kvs                // what the operations are applied to
+	db      kvs                 // what the operations are applied to
 	raw     ethdb.KeyValueStore // underlying store
 	dir     string
 	logger  *log.Logger
 	slots   [nSlots]ethdb.Batch
 	prevSz  [nSlots]int
 	seqNo   int
+	// tracksPending: GetPending reports at least something (signature detail only)
+	tracksPending bool
 }
 
 var subjectNames = []string{"leveldb", "pebble", "memorydb", "table-leveldb", "table-pebble", "table-memorydb"}
@@ -139,13 +142,13 @@ func (s *subject) reset() error {
 			for _, p := range content {
 				b.Delete(p.k)
 			}
-			if err := b.Write(); err != nil {
-				return
-			}
 			// keys of the alphabet that a broken iterator might have hidden
 			for _, k := range keyAlphabet {
-				s.raw.Delete(k)
-				s.raw.Delete(append([]byte(tablePrefix), k...))
+				b.Delete(k)
+				b.Delete(append([]byte(tablePrefix), k...))
+			}
+			if err := b.Write(); err != nil {
+				return
 			}
 		}
 		ok = len(s.rawContent()) == 0
